@@ -173,6 +173,7 @@ impl Vm {
     //@  rewrite R1
     //@  subst "(*fiber).as_ptr()" => "gc_cell_ptr(&fiber)"
     //@  subst "caller.map(|p| p.as_gc())" => "option_root_as_gc(caller)"
+    //@  subst "arg.unwrap_or_default()" => "value_unwrap_or_default(arg)"
     //@  requires old(self).coherent()
     //@  ensures final(self).coherent()
     //@  ensures r is Err ==> old(self).same_fiber_handles(final(self))
